@@ -9,12 +9,20 @@ PROP_ID = "C06"
 DESIGN_REF = "6/C06"
 KINDS = {"date": XmlDate, "time": XmlTime, "datetime": XmlDateTime}
 TRUSTED = [
-    "CPython int(), str.strip(), str.isdigit(), f-string integer formatting are modelled by hand (Py/Basic.lean) and compared through ops py.int/date.args",
+    "CPython int() on ASCII digit runs, str.strip(), str.isdigit(), f-string integer formatting are modelled by hand (Py/Basic.lean) and compared through ops py.int/date.args",
     "Unicode tables come from the interpreter that runs xsdata (unicodedata), regenerated each run",
-    "XSD 1.1 Part 2 lexical grammars of date/time/dateTime in Spec/XsdDate.lean are my transcription",
+    "XSD 1.1 Part 2 lexical grammars and lexical mappings of date/time/dateTime/g*/duration in Spec/XsdDate.lean are my transcription "
+    "(duration seconds as in the pattern of §3.3.6.2, [0-9]+(\\.[0-9]+)?; the plug-in's oracle regexes are a second, independent transcription)",
+    "xml_duration_re is modelled by hand (Lex/Period.lean: optGroup/optSeconds/matchBody), tied to re by op dur.parse",
+    "the standard library's date/time/datetime/timezone/timedelta are modelled as records with the range checks, the C-int conversion and the "
+    "timedelta/timezone limits of CPython (Lex/Stdlib.lean), tied to the real objects by ops date.to_std/date.from_std",
 ]
 ASSUMPTIONS = [
-    "a missing timezone is read as UTC when comparing (the property does not fix this; the code does the same)",
+    "a missing timezone is read as UTC when comparing and when taking the instant of a naive datetime (the property does not fix this; the code does the same)",
+    "24:00:00 keeps hour 24 as its component; that it is the first instant of the next day is theorem timeline_end_of_day",
+    "'preserve the instant' is claimed where the target type can hold the value: to_* for year 1..9999, no 24:00:00, |offset| < 24 h, exact down to "
+    "the microsecond (the deviation fractional_second % 1000 ns is proved exactly); from_* for utcoffsets that are whole minutes (the deviation utcoffset % 1 min is proved exactly)",
+    "xs:duration seconds are compared as the matched decimal text; the code hands that text to float()",
 ]
 
 # ----------------------------------------------------------------- impl side
@@ -172,8 +180,78 @@ HAND = {
 }
 
 
+WS_XSD = ["", "", " ", "\t", "\n", "\r\n ", "  "]
+WS_OTHER = ["\x0b", "\x0c", "\x1c", "\x85", "\xa0", "\u2003", "\u3000", "\ufeff", "\u200b"]
+
+
+def xsd_tz(rng):
+    r = rng.random()
+    if r < 0.25:
+        return ""
+    if r < 0.4:
+        return "Z"
+    if r < 0.5:
+        return rng.choice(["+00:00", "-00:00", "+14:00", "-14:00", "+13:59", "-13:59"])
+    return "%s%02d:%02d" % (rng.choice("+-"), rng.randint(0, 13), rng.randint(0, 59))
+
+
+def xsd_year(rng):
+    r = rng.random()
+    if r < 0.15:
+        return rng.choice(["0000", "-0000", "0001", "-0001", "9999", "10000", "-10000", "0100", "0099"])
+    y = rand_year(rng)
+    return D.format_date(y, 1, 1)[:-6]
+
+
+def xsd_time_body(rng):
+    r = rng.random()
+    if r < 0.1:
+        return "24:00:00" + rng.choice(["", ".0", ".000", ".000000000", ".0000000000"])
+    k = rng.choice([0, 0, 1, 2, 3, 4, 5, 6, 7, 8, 9, 9, 10, 12])
+    fr = "".join(rng.choice("0123456789") for _ in range(k))
+    return "%02d:%02d:%02d%s" % (rng.randint(0, 23), rng.randint(0, 59), rng.randint(0, 59), ("." + fr) if k else "")
+
+
+def xsd_form(rng, kind):
+    """a string drawn from the XSD grammar of `kind` (not via str() of a value)"""
+    if kind == "time":
+        core = xsd_time_body(rng) + xsd_tz(rng)
+    else:
+        ys = xsd_year(rng)
+        y = int(ys)
+        m = rng.randint(1, 12)
+        d = rng.choice([1, 28, _mlen(y, m), rng.randint(1, _mlen(y, m))])
+        core = "%s-%02d-%02d" % (ys, m, d)
+        if kind == "datetime":
+            core += "T" + xsd_time_body(rng)
+        core += xsd_tz(rng)
+    return rng.choice(WS_XSD) + core + rng.choice(WS_XSD)
+
+
+def near_miss(rng, s):
+    """one grammar-level defect: a field out of range by one, a missing/extra digit, a foreign white space"""
+    r = rng.random()
+    if r < 0.2:
+        return rng.choice(WS_OTHER) + s if rng.random() < 0.5 else s + rng.choice(WS_OTHER)
+    if r < 0.4:
+        return re.sub(r"\d\d(?=\D|$)", lambda m: rng.choice(["00", "13", "24", "32", "60", "61", "99", m.group(0)]), s, count=rng.randint(1, 2))
+    if r < 0.55:
+        return s.replace(":", rng.choice(["", "::", ".", "-"]), 1)
+    if r < 0.7:
+        return rng.choice(["+", "0", "00", "-0", "--"]) + s.lstrip()
+    if r < 0.85:
+        return s.rstrip() + rng.choice(["z", "+1:00", "+01", "+01:0", "+01:000", "-14:01", "+15:00", "+24:00", "ZZ", "."])
+    return mutate(rng, s)
+
+
 def gen_parse(rng, tier):
-    n = 700 if tier == "quick" else 160000
+    n = 700 if tier == "quick" else 400000
+    # forms drawn from the XSD grammar itself (every fraction length 0..12, -0000, +00:00, 24:00:00.0…,
+    # XSD white space) and one-defect neighbours of them
+    for kind in KINDS:
+        for _ in range(n // 2):
+            s = xsd_form(rng, kind)
+            yield {"kind": kind, "s": s if rng.random() < 0.6 else near_miss(rng, s)}
     for kind, xs in HAND.items():
         for s in xs:
             yield {"kind": kind, "s": s}
@@ -193,6 +271,30 @@ def gen_parse(rng, tier):
         for mm in (0, 1, 59, 60, 99):
             for sg in "+-":
                 yield {"kind": "time", "s": f"01:02:03{sg}{hh:02d}:{mm:02d}"}
+    # every timezone hh:mm with hh 0..15, mm 0..60, both signs (841 valid ones each side)
+    for hh in range(0, 16):
+        for mm in range(0, 61):
+            for sg in "+-":
+                yield {"kind": "time", "s": f"23:59:59{sg}{hh:02d}:{mm:02d}"}
+    if tier != "quick":
+        # every pair of characters from a hostile alphabet at each two-digit field
+        alpha2 = "0123456789 +-_٣²:"
+        base = "2004-02-29T23:59:59.5+13:59"
+        for pos in (5, 8, 11, 14, 17, 22, 25):
+            for c1 in alpha2:
+                for c2 in alpha2:
+                    t = base[:pos] + c1 + c2 + base[pos + 2:]
+                    yield {"kind": "datetime", "s": t}
+                    if pos >= 11:
+                        yield {"kind": "time", "s": t[11:]}
+                    if pos < 11:
+                        yield {"kind": "date", "s": t[:10] + t[21:]}
+        # every fraction: lengths 0..11 x leading/trailing zeros x all-nines
+        for k in range(0, 12):
+            for fr in {"1" * k, "0" * k, "9" * k, ("0" * (k - 1) + "1") if k else "", ("1" + "0" * (k - 1)) if k else ""}:
+                for tz in ("", "Z", "-00:00"):
+                    yield {"kind": "time", "s": "00:00:00" + ("." + fr if k else "") + tz}
+                    yield {"kind": "datetime", "s": "-0000-01-01T24:00:00" + ("." + fr if k else "") + tz}
     for kind in KINDS:
         for _ in range(n):
             v = rand_value(rng, kind)
@@ -207,7 +309,7 @@ def gen_parse(rng, tier):
 
 
 def gen_str(rng, tier):
-    n = 500 if tier == "quick" else 160000
+    n = 500 if tier == "quick" else 400000
     for kind in KINDS:
         for _ in range(n):
             yield {"kind": kind, "v": rand_value(rng, kind)}
@@ -224,7 +326,7 @@ FMTS = ["%Y-%m-%d%z", "%H:%M:%S%z", "---%d%z", "--%m%z", "--%m-%d%z", "%Y%z", "%
 
 
 def gen_args(rng, tier):
-    n = 800 if tier == "quick" else 160000
+    n = 800 if tier == "quick" else 400000
     hand = ["---01", "---31Z", "--12", "--12-31+01:00", "2001", "2001-10", "-2001-10Z", "--1", "---1", "----", "--12-", "---01+", "a"]
     for f in FMTS:
         for s in hand:
@@ -259,7 +361,7 @@ def gen_int(rng, tier):
     hand = ["\x1c1", "1\x1f", "\x0b1", "\x0c1", "\x851", "\xa01", "\u20281", "1\x1c\xa0", "0", "00", "-0", "+5", " 5 ", "5_0", "_5", "5_", "5__0", "", " ", "-", "+", "+-5", "٣", "1٣", "²", " 5", "5 ", "1 2", "0x1", "1e3", "1.0", "-_1", "+_1", "1_٣", "１２"]
     for s in hand:
         yield {"s": s}
-    n = 1500 if tier == "quick" else 240000
+    n = 1500 if tier == "quick" else 400000
     a = "0123456789+-_ \t٣²１x\x1c\x1f\xa0\x0b"
     for _ in range(n):
         yield {"s": "".join(rng.choice(a) for _ in range(rng.randint(0, 6)))}
@@ -336,7 +438,7 @@ PERIOD_HAND = [
 def gen_period(rng, tier):
     for s in PERIOD_HAND:
         yield {"s": s}
-    n = 1200 if tier == "quick" else 240000
+    n = 1200 if tier == "quick" else 500000
     for _ in range(n):
         k = rng.randrange(5)
         off = D.format_offset(rand_offset(rng))
@@ -367,7 +469,20 @@ DUR_HAND = [
 def gen_dur(rng, tier):
     for s in DUR_HAND:
         yield {"s": s.replace("\\n", "\n")}
-    n = 1500 if tier == "quick" else 240000
+    # every combination of components x sign x seconds with/without fraction x a trailing T
+    for mask in range(64):
+        for neg in ("", "-"):
+            for sec in ("5", "0.5", "05.050"):
+                date = "".join(f"{rng.randint(0, 99)}{c}" for i, c in enumerate("YMD") if mask >> i & 1)
+                t = "".join(f"{rng.randint(0, 99)}{c}" for i, c in enumerate("HM") if mask >> (3 + i) & 1)
+                if mask >> 5 & 1:
+                    t += sec + "S"
+                elif sec != "5":
+                    continue
+                yield {"s": neg + "P" + date + ("T" + t if t else "")}
+                if t == "":
+                    yield {"s": neg + "P" + date + "T"}
+    n = 1500 if tier == "quick" else 500000
     for _ in range(n):
         parts = ""
         for c in "YMD":
@@ -466,7 +581,7 @@ def gen_cmp(rng, tier):
             if d <= D.monthlen(y, m):
                 a = [y, m, d, 12, 0, 0, 0, None]
                 yield {"kind": "datetime", "a": a, "b": near(rng, a, "datetime")}
-    n = 1500 if tier == "quick" else 320000
+    n = 1500 if tier == "quick" else 600000
     for kind in ("time", "datetime"):
         for _ in range(n):
             v = rand_value(rng, kind)
@@ -482,18 +597,312 @@ def gen_dfc(rng, tier):
         yield {"v": [rng.randint(-10**6, 10**6), rng.randint(-3, 16), rng.randint(-5, 40)]}
 
 
+# ----------------------------------------------------------------- standard-library conversions
+import datetime as _dt  # noqa: E402
+
+_US = _dt.timedelta(microseconds=1)
+
+
+def _off_us(obj):
+    td = obj.utcoffset()
+    return None if td is None else td // _US
+
+
+def _dt_fields(r):
+    return [r.year, r.month, r.day, r.hour, r.minute, r.second, r.microsecond, _off_us(r)]
+
+
+def impl_to_std(a):
+    kind, v = a["kind"], a["v"]
+    try:
+        if kind == "date.to_date":
+            r = XmlDate(*v).to_date()
+            out = [r.year, r.month, r.day]
+        elif kind == "date.to_datetime":
+            out = _dt_fields(XmlDate(*v).to_datetime())
+        elif kind == "time.to_time":
+            r = XmlTime(*v).to_time()
+            out = [r.hour, r.minute, r.second, r.microsecond, _off_us(r)]
+        else:
+            out = _dt_fields(XmlDateTime(*v).to_datetime())
+    except ValueError:
+        return err("ValueError")
+    except OverflowError:
+        return err("OverflowError")
+    except Exception as e:  # noqa: BLE001
+        return err("LEAK:" + type(e).__name__)
+    return ok(out)
+
+
+def _mk_tz(u):
+    return None if u is None else _dt.timezone(_dt.timedelta(microseconds=u))
+
+
+def impl_from_std(a):
+    kind, v = a["kind"], a["v"]
+    if kind == "date.from_date":
+        return ok(list(XmlDate.from_date(_dt.date(*v))))
+    if kind == "date.from_datetime":
+        return ok(list(XmlDate.from_datetime(_dt.datetime(*v[:7], tzinfo=_mk_tz(v[7])))))
+    if kind == "time.from_time":
+        return ok(list(XmlTime.from_time(_dt.time(*v[:4], tzinfo=_mk_tz(v[4])))))
+    return ok(list(XmlDateTime.from_datetime(_dt.datetime(*v[:7], tzinfo=_mk_tz(v[7])))))
+
+
+C_INT = 2**31
+EDGE_YEARS = [0, 1, 9999, 10000, -1, C_INT - 1, C_INT, -C_INT, -C_INT - 1, 10**30]
+EDGE_OFFSETS = [None, 0, 1, -1, 840, -840, 1439, -1439, 1440, -1440, 999999999 * 1440 + 1439, 999999999 * 1440 + 1440,
+                -999999999 * 1440, -999999999 * 1440 - 1, 10**13, -(10**13), 10**40]
+EDGE_FRACS = [0, 1, 999, 1000, 999999999, 10**9, -1, -1000, -1001, C_INT * 1000 - 1, C_INT * 1000, -C_INT * 1000, -C_INT * 1000 - 1]
+
+
+def gen_to_std(rng, tier):
+    n = 400 if tier == "quick" else 200000
+    # bounded-exhaustive: every edge year x every edge offset; every edge fraction; field overflows
+    for y in EDGE_YEARS:
+        for o in EDGE_OFFSETS:
+            yield {"kind": "datetime.to_datetime", "v": [y, 6, 15, 12, 30, 30, 5000, o]}
+            yield {"kind": "date.to_datetime", "v": [y, 6, 15, o]}
+        yield {"kind": "date.to_date", "v": [y, 2, 29, 60]}
+    for f in EDGE_FRACS:
+        for o in (None, 0, 90, 1440):
+            yield {"kind": "datetime.to_datetime", "v": [2024, 2, 29, 23, 59, 59, f, o]}
+            yield {"kind": "time.to_time", "v": [23, 59, 59, f, o]}
+    for i in range(7):
+        for bad in (-1, 0, 13, 24, 32, 60, 61, C_INT, -C_INT - 1):
+            v = [2023, 2, 28, 23, 59, 59, 999999999, None]
+            v[i] = bad
+            yield {"kind": "datetime.to_datetime", "v": v}
+            if i >= 3:
+                yield {"kind": "time.to_time", "v": v[3:]}
+            if i < 3:
+                yield {"kind": "date.to_date", "v": v[:3] + [None]}
+    for o in EDGE_OFFSETS:
+        yield {"kind": "time.to_time", "v": [0, 0, 0, 0, o]}
+    for _ in range(n):
+        k = rng.randrange(4)
+        if k == 0:
+            v = rand_value(rng, "datetime")
+            kind = "datetime.to_datetime"
+        elif k == 1:
+            v = rand_value(rng, "time")
+            kind = "time.to_time"
+        else:
+            v = rand_value(rng, "date")
+            kind = "date.to_date" if k == 2 else "date.to_datetime"
+        r = rng.random()
+        if r < 0.55:  # keep inside the representable region most of the time
+            if kind.startswith("date") or kind.startswith("datetime"):
+                v[0] = rng.randint(1, 9999)
+                v[2] = min(v[2], D.monthlen(v[0], v[1]))
+            if kind == "datetime.to_datetime" and v[3] == 24:
+                v[3] = 0
+            if kind == "time.to_time" and v[0] == 24:
+                v[0] = 0
+        elif r < 0.7:
+            v[-1] = rng.choice(EDGE_OFFSETS + [rng.randint(-2000, 2000)])
+        elif r < 0.8 and kind in ("datetime.to_datetime", "time.to_time"):
+            v[-2] = rng.choice(EDGE_FRACS)
+        yield {"kind": kind, "v": v}
+
+
+DAY_US = 86400 * 10**6
+
+
+def rand_utcoffset(rng):
+    r = rng.random()
+    if r < 0.25:
+        return None
+    if r < 0.35:
+        return 0
+    if r < 0.6:
+        return rng.randint(-1439, 1439) * 60 * 10**6  # whole minutes
+    if r < 0.75:
+        return rng.randint(-86399, 86399) * 10**6  # whole seconds
+    if r < 0.85:
+        return rng.choice([DAY_US - 1, -DAY_US + 1, 59999999, -59999999, 60000001, -60000001, 1, -1, -86370 * 10**6])
+    return rng.randint(-DAY_US + 1, DAY_US - 1)
+
+
+def gen_from_std(rng, tier):
+    n = 400 if tier == "quick" else 200000
+    for u in (None, 0, 1, -1, 59999999, 60000000, 60000001, -59999999, -60000000, -60000001, DAY_US - 1, -DAY_US + 1, 19815 * 10**6):
+        yield {"kind": "datetime.from_datetime", "v": [1, 1, 1, 0, 0, 0, 0, u]}
+        yield {"kind": "datetime.from_datetime", "v": [9999, 12, 31, 23, 59, 59, 999999, u]}
+        yield {"kind": "time.from_time", "v": [23, 59, 59, 999999, u]}
+        yield {"kind": "date.from_datetime", "v": [2024, 2, 29, 23, 59, 59, 999999, u]}
+    for _ in range(n):
+        y = rng.choice([1, 9999, rng.randint(1, 9999)])
+        m = rng.randint(1, 12)
+        d = rng.randint(1, D.monthlen(y, m))
+        t = [rng.randint(0, 23), rng.randint(0, 59), rng.randint(0, 59), rng.choice([0, 1, 999, 1000, 999999, rng.randint(0, 999999)])]
+        k = rng.randrange(4)
+        if k == 0:
+            yield {"kind": "date.from_date", "v": [y, m, d]}
+        elif k == 1:
+            yield {"kind": "date.from_datetime", "v": [y, m, d, *t, rand_utcoffset(rng)]}
+        elif k == 2:
+            yield {"kind": "time.from_time", "v": [*t, rand_utcoffset(rng)]}
+        else:
+            yield {"kind": "datetime.from_datetime", "v": [y, m, d, *t, rand_utcoffset(rng)]}
+
+
+def classify_std(a, o):
+    u = a["v"][-1] if not a["kind"].endswith("_date") else None
+    if a["kind"].split(".")[1].startswith("from"):
+        oc = "naive" if u is None else "utc" if u == 0 else "minutes" if u % 60000000 == 0 else "subminute"
+        return a["kind"] + ":" + oc
+    return a["kind"] + ":" + ("ok" if "ok" in o else o["err"])
+
+
+# ----------------------------------------------------------------- history independence (spec-level)
+def _snapshot(kind, s):
+    try:
+        if kind == "period":
+            p = XmlPeriod(s)
+            return ["ok", p.data, p.as_dict()]
+        if kind == "duration":
+            d = XmlDuration(s)
+            return ["ok", d.data, {k: repr(v) for k, v in d.asdict().items()}]
+        x = KINDS[kind].from_string(s)
+        return ["ok", list(x), str(x), repr(x)]
+    except ValueError:
+        return ["ValueError"]
+
+
+def impl_repeat(a):
+    """same input, same answer: before and after other parses, comparisons, conversions and hashing of
+    the very same objects (nothing in the date/time types may keep state between calls)"""
+    first = _snapshot(a["kind"], a["s"])
+    other = _snapshot(a["kind2"], a["s2"])
+    objs = []
+    for k, t in ((a["kind"], a["s"]), (a["kind2"], a["s2"])):
+        if k in KINDS:
+            try:
+                objs.append(KINDS[k].from_string(t))
+            except ValueError:
+                pass
+    before = [(list(o), str(o)) for o in objs]
+    for o in objs:
+        for p in objs:
+            if type(o) is type(p) and not isinstance(o, XmlDate):
+                o < p, o == p, o >= p  # noqa: B015
+        hash(o)
+        for conv in ("to_datetime", "to_time", "to_date"):
+            if hasattr(o, conv):
+                try:
+                    getattr(o, conv)()
+                except (ValueError, OverflowError):
+                    pass
+    after = [(list(o), str(o)) for o in objs]
+    again = _snapshot(a["kind"], a["s"])
+    other_again = _snapshot(a["kind2"], a["s2"])
+    return ok(first == again and other == other_again and before == after)
+
+
+def gen_repeat(rng, tier):
+    n = 250 if tier == "quick" else 60000
+    kinds = ["date", "time", "datetime", "period", "duration"]
+
+    def one(k):
+        if k in KINDS:
+            t = xsd_form(rng, k)
+            return t if rng.random() < 0.7 else near_miss(rng, t)
+        if k == "period":
+            return rng.choice(PERIOD_HAND)
+        return rng.choice(DUR_HAND)
+
+    for _ in range(n):
+        k1, k2 = rng.choice(kinds), rng.choice(kinds)
+        yield {"kind": k1, "s": one(k1), "kind2": k2, "s2": one(k2)}
+
+
+# ----------------------------------------------------------------- distribution buckets (evidence: classify=)
+def classify_parse(a, o):
+    s = a["s"]
+    if "err" in o:
+        return a["kind"] + ":" + o["err"]
+    feats = []
+    if s != s.strip():
+        feats.append("ws")
+    if "." in s:
+        feats.append("frac%d" % len(re.search(r"\.([0-9]*)", s).group(1)))
+    v = o["ok"]
+    if v[-1] is None:
+        feats.append("notz")
+    elif s.rstrip().endswith("Z"):
+        feats.append("Z")
+    else:
+        feats.append("tz")
+    if a["kind"] != "time" and (v[0] <= 0 or v[0] > 9999):
+        feats.append("bigyear")
+    if a["kind"] != "date" and v[-5] == 24:
+        feats.append("h24")
+    return a["kind"] + ":ok:" + "+".join(feats)
+
+
+def classify_str(a, o):
+    v = a["v"]
+    f = []
+    if a["kind"] != "date":
+        fr = v[-2]
+        f.append("f0" if fr == 0 else "f9" if fr % 1000 else "f6" if fr % 1000000 else "f3")
+    f.append("notz" if v[-1] is None else "Z" if v[-1] == 0 else "neg" if v[-1] < 0 else "pos")
+    if a["kind"] != "time":
+        f.append("y<0" if v[0] < 0 else "y4" if v[0] <= 9999 else "y5+")
+    return a["kind"] + ":" + "+".join(f)
+
+
+def classify_period(a, o):
+    if "err" in o:
+        return "err:" + o["err"]
+    v = o["ok"]
+    shape = "gYearMonth" if v["year"] is not None and v["month"] is not None else "gYear" if v["year"] is not None else \
+        "gMonthDay" if v["month"] is not None and v["day"] is not None else "gMonth" if v["month"] is not None else "gDay"
+    return shape + (":tz" if v["offset"] is not None else ":notz") + (":bogus--" if a["s"].strip()[4:6] == "--" and shape == "gMonth" else "")
+
+
+def classify_dur(a, o):
+    if "err" in o:
+        return "err:" + o["err"]
+    v = o["ok"]
+    comps = "".join(c for c, k in zip("YMDHmS", ("years", "months", "days", "hours", "minutes", "seconds")) if v[k] is not None)
+    return ("-" if v["negative"] else "+") + ("n%d" % len(comps)) + (":frac" if v["seconds"] is not None and "." in a["s"] else "")
+
+
+def classify_cmp(a, o):
+    r = o["ok"]
+    rel = "eq" if r[0] else "lt" if r[2] else "gt"
+    same_off = (a["a"][-1] or 0) == (a["b"][-1] or 0)
+    return a["kind"] + ":" + rel + (":sameoff" if same_off else ":diffoff")
+
+
+def classify_args(a, o):
+    return a["fmt"] + ":" + ("ok" if "ok" in o else o["err"])
+
+
 CORRS = [
-    Corr("date.parse", gen_parse, impl_parse, nontrivial=lambda a, o: len(a["s"]) > 4,
+    Corr("date.parse", gen_parse, impl_parse, nontrivial=lambda a, o: len(a["s"]) > 4, classify=classify_parse,
          describe="XmlDate/XmlTime/XmlDateTime.from_string vs model"),
-    Corr("date.str", gen_str, impl_str, describe="__str__ vs model"),
-    Corr("date.args", gen_args, impl_args, nontrivial=lambda a, o: len(a["s"]) > 2, describe="parse_date_args on every DateFormat"),
+    Corr("date.str", gen_str, impl_str, classify=classify_str, describe="__str__ vs model"),
+    Corr("date.args", gen_args, impl_args, nontrivial=lambda a, o: len(a["s"]) > 2, classify=classify_args,
+         describe="parse_date_args on every DateFormat"),
     Corr("py.int", gen_int, impl_int, nontrivial=lambda a, o: len(a["s"]) > 0, describe="CPython int(str) vs Py.pyInt"),
-    Corr("date.validate_date", gen_vdate, impl_validate_date),
-    Corr("date.validate_time", gen_vtime, impl_validate_time),
-    Corr("period.parse", gen_period, impl_period, nontrivial=lambda a, o: len(a["s"]) > 2, describe="XmlPeriod(value) vs model"),
-    Corr("dur.parse", gen_dur, impl_dur, canon=canon_dur, nontrivial=lambda a, o: len(a["s"]) > 2, describe="XmlDuration(value) vs model"),
-    Corr("date.cmp", gen_cmp, impl_cmp, describe="six rich comparisons of XmlTime/XmlDateTime vs model key"),
-    Corr("date.days_from_civil", gen_dfc, impl_dfc),
+    Corr("date.validate_date", gen_vdate, impl_validate_date, classify=lambda a, o: "valid" if o.get("ok") else "invalid"),
+    Corr("date.validate_time", gen_vtime, impl_validate_time, classify=lambda a, o: "valid" if o.get("ok") else "invalid"),
+    Corr("period.parse", gen_period, impl_period, nontrivial=lambda a, o: len(a["s"]) > 2, classify=classify_period,
+         describe="XmlPeriod(value) vs model"),
+    Corr("dur.parse", gen_dur, impl_dur, canon=canon_dur, nontrivial=lambda a, o: len(a["s"]) > 2, classify=classify_dur,
+         describe="XmlDuration(value) vs model"),
+    Corr("date.cmp", gen_cmp, impl_cmp, classify=classify_cmp, describe="six rich comparisons of XmlTime/XmlDateTime vs model key"),
+    Corr("date.days_from_civil", gen_dfc, impl_dfc,
+         classify=lambda a, o: ("jan-feb" if a["v"][1] <= 2 else "mar-dec") + (":y<=0" if a["v"][0] <= 0 else ":y>0")),
+    Corr("date.to_std", gen_to_std, impl_to_std, classify=classify_std,
+         describe="to_date/to_time/to_datetime vs the record model of datetime (error kinds included)"),
+    Corr("date.from_std", gen_from_std, impl_from_std, classify=classify_std,
+         describe="from_date/from_time/from_datetime on real stdlib objects (utcoffset down to microseconds) vs model"),
+    Corr("date.repeat", gen_repeat, impl_repeat, spec=lambda a: ok(True), classify=lambda a, o: a["kind"] + "/" + a["kind2"],
+         describe="spec-level: results do not depend on earlier parses / comparisons / conversions of the same objects"),
 ]
 
 # ----------------------------------------------------------------- oracle
@@ -632,7 +1041,7 @@ def oracle_value(a):
 
 
 def gen_oracle_parse(rng, tier):
-    yield from gen_parse(rng, "quick")
+    yield from gen_parse(rng, tier)
 
 
 
@@ -689,6 +1098,16 @@ def oracle_period(a):
             return f"{s!r} accepted with month {mo}"
         if d is not None and not 1 <= d <= ([31, 29, 31, 30, 31, 30, 31, 31, 30, 31, 30, 31][mo - 1] if mo else 31):
             return f"{s!r} accepted with day {d}"
+        out = str(XmlPeriod(s))
+        bogus = out.startswith("--") and out[4:6] == "--"  # the XSD 1.0 gMonth form --MM--, kept on purpose
+        if got["offset"] is not None and not -840 <= got["offset"] <= 840:
+            return None
+        if not bogus:
+            back = xsd_period(out)
+            if back is None:
+                return f"XmlPeriod({s!r}) is accepted and formats to {out!r}, no XSD-valid g* value"
+            if back != got:
+                return f"XmlPeriod({s!r}) formats to {out!r}, which XSD reads as {back}, not {got}"
     return None
 
 
@@ -722,6 +1141,12 @@ def oracle_dur(a):
             return f"XSD-valid duration {s!r} rejected"
         if got != exp:
             return f"XSD-valid duration {s!r} parsed as {got}, XSD assigns {exp}"
+    if got is not None:
+        out = str(XmlDuration(s))
+        if xsd_duration(out) is None:
+            return f"XmlDuration({s!r}) is accepted and formats to {out!r}, no XSD-valid duration"
+        if XmlDuration(out).asdict() != got:
+            return f"XmlDuration({s!r}) formats to {out!r} which parses to {XmlDuration(out).asdict()}"
     return None
 
 
@@ -753,48 +1178,107 @@ def oracle_cmp(a):
     return None
 
 
-def oracle_stdlib(a):
-    """conversions to and from the standard library preserve the instant"""
-    import datetime as _dt
+def _std_instant(dt):
+    """timeline position in ns of a stdlib datetime (naive = UTC), by stdlib arithmetic only"""
+    import datetime as _d
 
+    epoch = _d.datetime(1, 1, 1, tzinfo=_d.timezone.utc)
+    aware = dt if dt.tzinfo else dt.replace(tzinfo=_d.timezone.utc)
+    delta = aware - epoch
+    return ((delta.days + 1) * 86400 + delta.seconds) * 10**9 + delta.microseconds * 1000
+
+
+def oracle_stdlib(a):
+    """conversions to and from the standard library preserve the instant (where datetime can hold the
+    value: year 1..9999, no 24:00:00; below the microsecond the value is truncated)"""
     kind, v = a["kind"], a["v"]
     if not real_value(kind, v) or not _offset_ok(v):
         return None
     cls = KINDS[kind]
     x = cls(*v)
+    year_ok = kind == "time" or 1 <= v[0] <= 9999
+    h24 = kind != "date" and v[-5] == 24
+    conv = {"date": "to_datetime", "time": "to_time", "datetime": "to_datetime"}[kind]
+    try:
+        obj = getattr(x, conv)()
+    except (ValueError, OverflowError) as e:
+        if year_ok and not h24:
+            return f"{x!r}.{conv}() raised {type(e).__name__} for a value the standard library can hold"
+        return None
+    except Exception as e:  # noqa: BLE001
+        return f"{x!r}.{conv}() raised {type(e).__name__}"
+    if not year_ok or h24:
+        return f"{x!r}.{conv}() = {obj!r}: the standard library cannot hold this value"
     if kind == "date":
-        if not 1 <= v[0] <= 9999:
-            return None
         d = x.to_date()
         if (d.year, d.month, d.day) != tuple(v[:3]):
             return f"{x!r}.to_date() = {d!r}"
         if XmlDate.from_date(d) != XmlDate(*v[:3]):
             return f"XmlDate.from_date({d!r}) != {x!r}"
-        dt = x.to_datetime()
-        if XmlDate.from_datetime(dt) != x:
-            return f"XmlDate.from_datetime({dt!r}) = {XmlDate.from_datetime(dt)!r} != {x!r}"
+        if XmlDate.from_datetime(obj) != x:
+            return f"XmlDate.from_datetime({obj!r}) = {XmlDate.from_datetime(obj)!r} != {x!r}"
+        if _std_instant(obj) != ref_instant("datetime", [*v[:3], 0, 0, 0, 0, v[3]]):
+            return f"{x!r}.to_datetime() = {obj!r} is not the first instant of that day"
         return None
+    trunc = list(v)
+    trunc[-2] -= trunc[-2] % 1000
     if kind == "time":
-        if v[0] == 24 or v[3] % 1000:
-            return None
-        t = x.to_time()
-        back = XmlTime.from_time(t)
-        if list(back) != v:
-            return f"XmlTime.from_time({t!r}) = {back!r} != {x!r}"
+        back = XmlTime.from_time(obj)
+        if list(back) != trunc:
+            return f"XmlTime.from_time({obj!r}) = {back!r}, expected {trunc}"
+        got = ((obj.hour * 60 + obj.minute) * 60 + obj.second) * 10**9 + obj.microsecond * 1000
+        off = obj.utcoffset()
+        got -= 0 if off is None else (off // _US) * 1000
+        if got != ref_instant(kind, trunc):
+            return f"{x!r}.to_time() = {obj!r} is another time of day"
         return None
-    if not 1 <= v[0] <= 9999 or v[3] == 24 or v[6] % 1000:
+    back = XmlDateTime.from_datetime(obj)
+    if list(back) != trunc:
+        return f"XmlDateTime.from_datetime({obj!r}) = {back!r}, expected {trunc}"
+    if _std_instant(obj) != ref_instant(kind, trunc):
+        return f"{x!r}.to_datetime() = {obj!r} is another instant"
+    return None
+
+
+def oracle_from_std(a):
+    """from_date/from_time/from_datetime of a real stdlib object: same instant, and the way back gives
+    an equal object — for UTC offsets that are whole minutes (XSD timezones have minute resolution)"""
+    kind, v = a["kind"], a["v"]
+    u = None if kind == "date.from_date" else v[-1]
+    if u is not None and u % 60000000:
         return None
-    dt = x.to_datetime()
-    back = XmlDateTime.from_datetime(dt)
-    if list(back) != v:
-        return f"XmlDateTime.from_datetime({dt!r}) = {back!r} != {x!r}"
-    ref = ref_instant(kind, v)
-    epoch = _dt.datetime(1, 1, 1, tzinfo=_dt.timezone.utc)
-    aware = dt if dt.tzinfo else dt.replace(tzinfo=_dt.timezone.utc)
-    delta = aware - epoch
-    ns = ((delta.days + 1) * 86400 + delta.seconds) * 10**9 + delta.microseconds * 1000
-    if ns != ref:
-        return f"{x!r}.to_datetime() = {dt!r} is another instant"
+    if kind == "date.from_date":
+        d = _dt.date(*v)
+        x = XmlDate.from_date(d)
+        if list(x) != [*v, None] or x.to_date() != d:
+            return f"XmlDate.from_date({d!r}) = {x!r}"
+        return None
+    if kind == "time.from_time":
+        t = _dt.time(*v[:4], tzinfo=_mk_tz(u))
+        x = XmlTime.from_time(t)
+        if not real_value("time", list(x)):
+            return f"XmlTime.from_time({t!r}) = {x!r} is no time of day"
+        want = ((t.hour * 60 + t.minute) * 60 + t.second) * 10**9 + t.microsecond * 1000 - (u or 0) * 1000
+        if ref_instant("time", list(x)) != want:
+            return f"XmlTime.from_time({t!r}) = {x!r} is another time of day"
+        t2 = x.to_time()
+        if t2 != t or t2.utcoffset() != t.utcoffset() or (t2.tzinfo is None) != (t.tzinfo is None):
+            return f"XmlTime.from_time({t!r}).to_time() = {t2!r}"
+        return None
+    dt = _dt.datetime(*v[:7], tzinfo=_mk_tz(u))
+    if kind == "date.from_datetime":
+        x = XmlDate.from_datetime(dt)
+        if list(x)[:3] != v[:3] or x.offset != (None if u is None else u // 60000000):
+            return f"XmlDate.from_datetime({dt!r}) = {x!r}"
+        return None
+    x = XmlDateTime.from_datetime(dt)
+    if not real_value("datetime", list(x)):
+        return f"XmlDateTime.from_datetime({dt!r}) = {x!r} is no real date/time"
+    if ref_instant("datetime", list(x)) != _std_instant(dt):
+        return f"XmlDateTime.from_datetime({dt!r}) = {x!r} is another instant"
+    dt2 = x.to_datetime()
+    if dt2 != dt or dt2.utcoffset() != dt.utcoffset() or (dt2.tzinfo is None) != (dt.tzinfo is None):
+        return f"XmlDateTime.from_datetime({dt!r}).to_datetime() = {dt2!r}"
     return None
 
 
@@ -805,17 +1289,28 @@ ORACLES = [
     Oracle("c06.duration", gen_dur, oracle_dur, from_ops=("dur.parse",)),
     Oracle("c06.cmp", gen_cmp, oracle_cmp, from_ops=("date.cmp",)),
     Oracle("c06.stdlib", gen_str, oracle_stdlib, from_ops=("date.str",)),
+    Oracle("c06.from_std", gen_from_std, oracle_from_std, from_ops=("date.from_std",)),
 ]
 
 FINDINGS = {}
 
 LEVEL_TEXT = (
-    "Lean theorems over all strings / all values for the date-time scanner, validators and formatters "
-    "(reject_unreal_* for every string and every Unicode environment; more in Props/C06.lean), "
-    "with the model tied to /repo by a differential check of from_string/__str__/parse_date_args/int() "
-    "on hand-picked, boundary-exhaustive and mutated inputs."
+    "Lean theorems over all strings / all values, every Unicode environment: (acceptance) every XSD-valid lexical form of date/time/dateTime "
+    "(Spec/XsdDate.lean: signed >=4-digit years incl. -0000, every calendar day, 24:00:00(.0+), 1-9 fraction digits, Z and every +-hh:mm up to 14:00, "
+    "XSD white space around) parses to exactly the components XSD assigns (parse_accepts_valid_*; a 10th fraction digit is refused); likewise the five g* "
+    "shapes through XmlPeriod's dispatcher (period_accepts_g*) and xs:duration for every combination of components, sign and fractional seconds "
+    "(duration_accepts_valid, duration_format_parse); (rejection) whatever from_string/XmlPeriod accept is a real calendar date / time of day "
+    "(reject_unreal_*); (round trip) str() of every valid value parses back to it (*_format_parse); (timeline) the comparison key orders and "
+    "identifies values exactly as the calendar does (days_from_civil_*, datetime_key_*, timeline_end_of_day, timeline_offset); (standard library) "
+    "to_datetime/to_time/to_date succeed exactly on the stated region, move the instant by exactly fractional_second % 1000 ns, from_* by exactly "
+    "utcoffset % 1 min, and the two directions are inverse where representable (to_datetime_ok_iff, to_datetime_instant, from_to_datetime, "
+    "from_datetime_instant, to_from_datetime, from_datetime_shape, and the XmlTime/XmlDate counterparts). The model is tied to the code by a "
+    "differential check of from_string/__str__/parse_date_args/int()/XmlPeriod/XmlDuration/_cmp/days_from_civil/to_*/from_* on hand-picked, "
+    "bounded-exhaustive, grammar-drawn and mutated inputs; the property's own oracles are swept on the implementation on every run."
 )
 LEVEL_NOTE = (
-    "Trusted: Lean kernel; hand model of CPython int()/strip/isdigit/format; XSD lexical grammar transcription; "
-    "the sampling correspondence check. datetime stdlib conversions are not modelled."
+    "Trusted: Lean kernel; hand models of CPython int()/strip/isdigit/format, of the duration regular expression and of the datetime constructors; "
+    "the XSD grammar transcription; the sampling correspondence check. Not modelled: XmlDate/XmlPeriod/XmlDuration ordering (tuple / string order, "
+    "outside the statement), __hash__, replace(), now()/utcnow() beyond the shape of from_datetime results (the clock is not compared), "
+    "converter.py's strptime-based DateTimeConverter for stdlib types with a format."
 )
